@@ -305,6 +305,24 @@ Example C09_geomcomp_nontrivial :
   geomcomp_lines vols cells = Ok [("m1_-1.0", 1%N, [1%Z]); ("m0", 1%N, [2%Z]); ("m1_-2.5", 1%N, [7%Z])].
 Proof. vm_compute. reflexivity. Qed.
 
+(* provenance and GEOMCOMP together: the volumes of the cells returned by the
+   "treat FILL" loop (a volume carries its cell's idorigin) are attached to the
+   composition named after the LEAF at the head of the chain: a parsed cell
+   without fill, i.e. the filler at the lowest level, not a container *)
+Theorem C09_volume_gets_leaf_material :
+  forall (fuel : nat) (d0 : dict cell) (next : Z) (st' : state) (ks : list Z)
+         (vols : dict vol) (g : list (string * list Z)),
+  pristine d0 -> (forall k, lookup k d0 <> None -> (k <= next)%Z) ->
+  treat_fill fuel d0 next = Ok (st', ks) ->
+  (forall k v, In (k, v) vols -> v_fictive v = false ->
+     In k ks /\ exists c, lookup k (fst st') = Some c /\ v_origin v = c_origin c) ->
+  geomcomp vols (fst st') = Ok g ->
+  forall k v, In (k, v) vols -> v_fictive v = false ->
+    exists L, lookup (head_of (fst st') k) d0 = Some L /\ c_fill L = None /\
+              member g (material_name L) k.
+Proof. exact volume_gets_leaf_material. Qed.
+Print Assumptions C09_volume_gets_leaf_material.
+
 (* ------------------------------------------------------------------------ *)
 (* COMPOSITION names                                                         *)
 (* ------------------------------------------------------------------------ *)
